@@ -4,6 +4,8 @@
 package main
 
 import (
+	"strings"
+	"crypto"
 	"bytes"
 	"crypto/x509"
 	"encoding/json"
@@ -44,7 +46,28 @@ func vArmorEncrypt(plain []byte, pass string) []byte {
 }
 
 // newSealedWorld: file = "ok" | "edbad" (Ed25519 file holds an RSA key) | "rsabad" (main key does not parse) | "ed" (both fine)
+// an optional ":pre<x>" suffix preloads the list of published keymaster public keys (keymaster_public_keys_filename)
+// with the Ed25519 key ("preed"), the main key ("prersa"), a foreign key ("preforeign") or Ed25519 + foreign ("premix")
 func newSealedWorld(file string) *vWorld {
+	pre := ""
+	if i := strings.Index(file, ":"); i >= 0 {
+		file, pre = file[:i], file[i+1:]
+	}
+	w := newSealedWorldFile(file)
+	switch pre {
+	case "preed":
+		w.st.KeymasterPublicKeys = []crypto.PublicKey{vEdKey.Public()}
+	case "prersa":
+		w.st.KeymasterPublicKeys = []crypto.PublicKey{&vCAKey.PublicKey}
+	case "preforeign":
+		w.st.KeymasterPublicKeys = []crypto.PublicKey{&vAttackerKey.PublicKey}
+	case "premix":
+		w.st.KeymasterPublicKeys = []crypto.PublicKey{&vAttackerKey.PublicKey, vEdKey.Public()}
+	}
+	return w
+}
+
+func newSealedWorldFile(file string) *vWorld {
 	w := newWorld(vWorldOpts{Sealed: true, CertCfg: []string{"password"}, WebUICfg: []string{"password"}, AdminUsers: []string{"root"}, CLITokens: true})
 	st := w.st
 	st.SSHCARawFileContent = vArmorEncrypt(vCAKeyPEM, vPassphrase)
